@@ -1215,6 +1215,8 @@ impl<T: PPGEvaluatorStrategy> PPGEvaluator<T> {
         let mut new_signals = Vec::new();
         let mut ignore_consider_signals = HashSet::new();
         for signal in self.signals.drain(..) {
+            #[cfg(tyberiusprime_pypipegraph2_verif)]
+            crate::verif::note_signal();
             debug!("");
             debug!(
                 "\tHandling {:?} for {}. Current state: {:?}",
